@@ -11,7 +11,8 @@ T="$VERIF/target/cov"
 W="$VERIF/work/cov"
 rm -rf "$W"; mkdir -p "$W"
 export CARGO_NET_OFFLINE=true
-(cd "$VERIF/harness" && RUSTFLAGS="-Cinstrument-coverage" CARGO_TARGET_DIR="$T" cargo +nightly build --release --bin driver --offline 2>&1 | tail -1)
+(cd "$VERIF/harness" && LLVM_PROFILE_FILE="$W/build-%p-%m.profraw" RUSTFLAGS="-Cinstrument-coverage" CARGO_TARGET_DIR="$T" cargo +nightly build --release --bin driver --offline 2>&1 | tail -1)
+rm -f "$W"/build-*.profraw
 for p in C01 C02 C03 C04 C05 C06 C07 C08 C09 C10 C11 C12 C13 C14 C15 C16 C18 C19; do
   LLVM_PROFILE_FILE="$W/$p-%p.profraw" "$T/release/driver" "$p" --tier quick --seed 1 --scale "$SCALE" --out "$W/$p.json" >/dev/null 2>&1 || true
   "$BIN/llvm-profdata" merge -sparse "$W"/$p-*.profraw -o "$W/$p.profdata"
